@@ -7,7 +7,7 @@ sys.path.insert(0, os.path.dirname(os.path.abspath(__file__)))
 import vlib
 
 def main():
-    for area in ("area_scalar", "area_codecs", "area_hostile", "area_bitmap", "area_mem", "area_float", "area_alloc"):
+    for area in ("area_scalar", "area_codecs", "area_hostile", "area_bitmap", "area_mem", "area_float", "area_alloc", "area_purity", "area_threads"):
         m = importlib.import_module(area)
         if hasattr(m, "prebuild"):
             m.prebuild()
